@@ -182,6 +182,50 @@ example : (observe ⟨[⟨none, 3, 60 * nsPerSec, none, some 0⟩]⟩ St.init
      ⟨.req, 0, 4, 5, [(costKey 0, 1)]⟩, ⟨.req, 0, 5, 5, [(costKey 0, 1)]⟩]).map (·.ans) =
     [some true, some false, some true, some true, some false] := by decide
 
+/-! ## Spill-over and monthly renewal
+
+`incLevelFull` is `quota.Inc` with the spill-over branch of a quota that declares the optional
+`spillover` block; the credit it reads is written by nobody else (see `Model/C01.lean`). -/
+
+/-- With no credit, `Inc` of a quota with the spill-over block is `Inc` of a quota without it, and the
+    credit stays 0: since the credit starts at 0 and this is its only writer, it is 0 forever, and every
+    theorem of this file applies unchanged to quotas with the block.  The bound proved is therefore "at
+    most `max` per window" — there is never any carried-over credit to add in this code base. -/
+theorem spillover_inert (withSpillover : Bool) (mx win : Nat) (l : Lvl) (r t cost : Nat) :
+    incLevelFull withSpillover 0 mx win l r t cost = (incLevel mx win l r t cost, 0) := by
+  unfold incLevelFull
+  cases hl : l.memo.lookup r with
+  | some v => simp [incLevel, hl]
+  | none => simp
+
+/-- The credit never grows (it is only ever used up). -/
+theorem spillover_credit_never_grows (withSpillover : Bool) (credit mx win : Nat) (l : Lvl) (r t cost : Nat) :
+    (incLevelFull withSpillover credit mx win l r t cost).2 ≤ credit := by
+  unfold incLevelFull
+  cases hl : l.memo.lookup r with
+  | some v => simp
+  | none =>
+    simp only
+    split
+    · exact Nat.sub_le _ _
+    · exact Nat.le_refl _
+
+/-- What the branch would do if anything ever credited the key: a request let through for free. -/
+example : (incLevelFull true 2 1 nsPerSec ⟨some 10, 1, [], 1⟩ 7 (10 * nsPerSec) 1) =
+    ((⟨some 10, 1, [(7, some 0)], 1⟩, .increased), 1) := by decide
+
+/-! ## The engine: live system flows -/
+
+/-- A hierarchy org(0) > team(1) > user(2) named by a flow only at the user level: no quota keeps a live
+    system-flow increment (the ancestors are switched off), so a request is exactly one limiter call. -/
+example : liveOrder ⟨[⟨none, 1, nsPerSec, none, none⟩, ⟨some 0, 100, 60 * nsPerSec, none, none⟩,
+    ⟨some 1, 2, 60 * nsPerSec, none, none⟩]⟩ [2] = [] := by decide
+
+/-- A sibling quota (3) that no flow names keeps its increment live; it runs before the limiter. -/
+example : engineOps ⟨[⟨none, 1, nsPerSec, none, none⟩, ⟨some 0, 100, 60 * nsPerSec, none, none⟩,
+    ⟨some 1, 2, 60 * nsPerSec, none, none⟩, ⟨some 1, 1, 60 * nsPerSec, none, none⟩]⟩ [2] 2 9 5 [] =
+    [⟨.inc, 3, 9, 5, []⟩, ⟨.req, 2, 9, 5, []⟩] := by decide
+
 /-! ## API calls are schedules -/
 
 /-- An API call on an existing quota, spawned and run to completion with no other step in between,
